@@ -379,8 +379,9 @@ theorem tryIntoRange_le (b : UserBounds) (n s e : Nat) (h : b.tryIntoRange n = s
         have := rangeEnd_le b.r n e' he
         omega
 
-/-- `unpack` yields at most one bound per existing field: `1:2147483647` on a 3-field record
-    becomes 3 bounds, not two thousand million -/
+/-- `unpack` yields at most one bound per existing field, whatever numbers were written: `1:` or
+    `-2147483647:` … on a 3-field record become at most 3 bounds (a side beyond the record makes
+    the bound unresolvable and it stays one bound) -/
 theorem unpack_length_le (b : UserBounds) (n : Nat) : (b.unpack n).length ≤ max 1 n := by
   unfold UserBounds.unpack
   cases hr : b.tryIntoRange n with
